@@ -1,4 +1,5 @@
 let () =
   match Array.to_list Sys.argv with
   | _ :: "run" :: rest -> Cmd_run.main rest
-  | _ -> prerr_endline "usage: rsmodel <run> ..."; exit 2
+  | _ :: "spec" :: rest -> Cmd_spec.main rest
+  | _ -> prerr_endline "usage: rsmodel_run <run|spec> ..."; exit 2
